@@ -24,6 +24,7 @@ import time
 
 HERE = os.path.dirname(os.path.abspath(__file__))
 VERIF = os.path.dirname(HERE)
+OUT = os.environ.get("VERIF_OUT", VERIF)   # where evidence/ and replays/ are written (scratch dir when trying seeded changes)
 sys.path.insert(0, HERE)
 import build  # noqa: E402
 import recipes  # noqa: E402
@@ -289,6 +290,8 @@ def main():
         tier = "quick"
     if prop == "replay":
         return do_replay(extra["pos"][0])
+    if prop == "determinism":
+        return do_determinism(tier, seed)
     return do_check(prop, tier, seed, extra)
 
 
@@ -325,6 +328,30 @@ def do_replay(path):
         return 1
     print("replay did not reproduce the recorded violation")
     return 0
+
+
+def do_determinism(tier, seed):
+    """Proof of determinism on a large sample: every seed is executed three times - 1 worker, 16 workers, and 16 workers under
+    another heap fill pattern - in separate processes; event-log hashes (decision stream, outputs, schedule) must agree."""
+    t0 = time.time()
+    batches = recipes.det_batches(tier)
+    th, exes = build.ensure(sorted(set(b["variant"] for b in batches)), sorted(set(b["backend"] for b in batches)))
+    r1 = run_batches(exes, [dict(b, max_procs=1, weight=1) for b in batches], seed)
+    r2 = run_batches(exes, [dict(b, max_procs=16, weight=1) for b in batches], seed)
+    r3 = run_batches(exes, [dict(b, max_procs=5, weight=1, opts=dict(b.get("opts", {}), perturb=90)) for b in batches], seed)
+    sig = lambda x: x["evhash"] + x["status"] + x["sched_hash"] + str(x["steps"])
+    rep = {"tier": tier, "seed": seed, "tree": th, "per_scenario": {}, "seeds": 0, "mismatch_workers": 0, "mismatch_fill": 0}
+    for b, a, c, d in zip(batches, r1, r2, r3):
+        ha, hc, hd = ({x["seed"]: sig(x) for x in r[0]} for r in (a, c, d))
+        mw = sum(1 for s_ in ha if hc.get(s_) != ha[s_])
+        mf = sum(1 for s_ in ha if hd.get(s_) != ha[s_])
+        rep["per_scenario"][b["name"]] = {"seeds": len(ha), "mismatch_workers": mw, "mismatch_fill": mf}
+        rep["seeds"] += len(ha); rep["mismatch_workers"] += mw; rep["mismatch_fill"] += mf
+    rep["wall_s"] = round(time.time() - t0, 1)
+    os.makedirs(os.path.join(OUT, "evidence"), exist_ok=True)
+    json.dump(rep, open(os.path.join(OUT, "evidence", "determinism.json"), "w"), indent=1)
+    print("determinism: %d seeds x 3 executions, %d mismatches across worker counts, %d across heap fill patterns (%.0fs)" % (rep["seeds"], rep["mismatch_workers"], rep["mismatch_fill"], rep["wall_s"]))
+    return 0 if rep["mismatch_workers"] == 0 and rep["mismatch_fill"] == 0 else 2
 
 
 def do_check(prop, tier, seed, extra):
@@ -440,7 +467,7 @@ def do_check(prop, tier, seed, extra):
         for v in rc_["judge"](tier, batches, results, cov, judged):
             violations.append({"batch_stat": v})
     # ---- process violations: known findings, gate, minimise, replay files
-    os.makedirs(os.path.join(VERIF, "replays"), exist_ok=True)
+    os.makedirs(os.path.join(OUT, "replays"), exist_ok=True)
     out_viol = []
     known_hits = {}
     gate_fail = False
@@ -453,7 +480,7 @@ def do_check(prop, tier, seed, extra):
             if k:
                 known_hits[k["what"]] = known_hits.get(k["what"], 0) + 1
                 continue
-            path = os.path.join(VERIF, "replays", "%s-stat-%s.json" % (prop, hashlib.sha1(text.encode()).hexdigest()[:10]))
+            path = os.path.join(OUT, "replays", "%s-stat-%s.json" % (prop, hashlib.sha1(text.encode()).hexdigest()[:10]))
             json.dump({"property": prop, "kind": "batch-statistic", "tier": tier, "seed": seed, "violation": bs, "tree": th,
                        "variant": batches[0]["variant"], "backend": batches[0]["backend"]}, open(path, "w"), indent=1)
             out_viol.append((path, bs["oracle"] + ": " + bs["detail"]))
@@ -470,7 +497,7 @@ def do_check(prop, tier, seed, extra):
             if k:
                 known_hits[k["what"]] = known_hits.get(k["what"], 0) + 1
                 continue
-            path = os.path.join(VERIF, "replays", "%s-dirty-%s.json" % (prop, hashlib.sha1(plan.encode()).hexdigest()[:10]))
+            path = os.path.join(OUT, "replays", "%s-dirty-%s.json" % (prop, hashlib.sha1(plan.encode()).hexdigest()[:10]))
             json.dump({"property": prop, "kind": "dirty-memory", "scenario": b["scenario"], "backend": b["backend"], "variant": b["variant"], "tree": th,
                        "plan": plan, "violation": {"cls": "uninitialised-read", "oracle": "C16.dirty",
                                                    "detail": "the same plan gives different observable results under two heap fill patterns"}}, open(path, "w"), indent=1)
@@ -536,7 +563,7 @@ def do_check(prop, tier, seed, extra):
         if not ok3:
             mplan = plan
         hid = hashlib.sha1((mplan + cls + oracle).encode()).hexdigest()[:10]
-        path = os.path.join(VERIF, "replays", "%s-%s.json" % (prop, hid))
+        path = os.path.join(OUT, "replays", "%s-%s.json" % (prop, hid))
         json.dump({"property": prop, "scenario": b["scenario"], "backend": b["backend"], "variant": b["variant"], "tree": th,
                    "violation": {"cls": cls, "oracle": oracle, "detail": detail}, "death": isdeath, "plan": mplan,
                    "minimise_runs": nruns, "original_plan_lines": plan.count("\n"), "minimised_plan_lines": mplan.count("\n"),
@@ -568,8 +595,8 @@ def do_check(prop, tier, seed, extra):
         cov_out.update(rc_["coverage_extra"](tier, batches, results, cov))
     ev = {"property_id": prop, "tier": tier, "seed": seed, "level": rc_["level"], "coverage": cov_out,
           "assumptions": rc_.get("assumptions", []), "wall_s": round(time.time() - t0, 2), "violations": len(out_viol)}
-    os.makedirs(os.path.join(VERIF, "evidence"), exist_ok=True)
-    json.dump(ev, open(os.path.join(VERIF, "evidence", prop + ".json"), "w"), indent=1)
+    os.makedirs(os.path.join(OUT, "evidence"), exist_ok=True)
+    json.dump(ev, open(os.path.join(OUT, "evidence", prop + ".json"), "w"), indent=1)
     for what, n in sorted(known_hits.items()):
         print("KNOWN-FINDING: property=%s %s (%d occurrences)" % (prop, what, n))
     for path, msg in out_viol:
